@@ -277,6 +277,25 @@ def run(tier):
             ck.finding("R6c.entries-dispose-alike", "R6c.entries-dispose-alike/%s/pending_program" % p, F.short_span(f.span),
                        "`%s` starts a program while a program of an earlier run may still be parked in pending_program: after the new program completes, the next "
                        "step() takes the parked one up again and answers NeedImports for a run the host gave up" % p)
+    # R6d: an entry that runs the program itself disposes of a run that fails.  step() does (R3 / R3b); eval() runs the VM to completion and must do the
+    # same behind that call: the disposer is called on some path that leads from the run to the return
+    ck.rule("R6d.failed-eval-disposes", "an entry point that runs the VM to completion calls the run disposer on a path behind that call (a run that fails leaves no orders, "
+            "frames or waiting contexts behind)", floor=1)
+    for p, f in sorted(fx.fns.items()):
+        if f.derived or f.closure or not p.startswith("interpreter::Interpreter::") or f.vis != "Public":
+            continue
+        runs6 = [bi for bi, t in f.calls() if (t[1].get("d") or "").endswith("Interpreter::run_vm_to_completion")]
+        if not runs6:
+            continue
+        import c19 as C19
+        dnames6 = tuple(sorted(disposers))
+        disp6 = C19.reaches_call(fx, f, dnames6) if dnames6 else []
+        ok6 = any(d in f.reachable_from(rb) and d != rb for rb in runs6 for d in disp6)
+        ck.instance("R6d.failed-eval-disposes", "%s: disposer behind run_vm_to_completion" % p, F.short_span(f.span), ok=ok6)
+        if not ok6:
+            ck.finding("R6d.failed-eval-disposes", "R6d.failed-eval-disposes/%s" % p, F.short_span(f.span),
+                       "`%s` runs the program to completion and returns its error without disposing of the run: the orders it issued are handed to the host by the next "
+                       "program (`[1].map(order); throw ..` then `1` answers Suspended with one pending order; prepare+step answers Complete(1))" % p)
     # R3: step() error arm
     # R3b: whoever takes the saved environment out of its slot puts it back whenever there is one
     ck.rule("R3b.slot-restore", "a function that takes Interpreter.active_saved_env restores Interpreter.env on every path on which the slot held a value", floor=1)
